@@ -38,6 +38,9 @@ def c14_predicate(c, o, j):
     want = [t for t in times if t in sched and (burn is None or t >= burn)]
     if o['pcm_times'] != upto_err(want):
         F.append('portfolio construction ran at %s..., scheduled instants not before burn-in are %s...' % (o['pcm_times'][:4], upto_err(want)[:4]))
+    # every run of the portfolio construction records exactly one target-allocation row, at its instant
+    if o['error'] is None and [t for t, _ in o['allocs']] != o['pcm_times']:
+        F.append('target-allocation rows at %s..., portfolio construction was due at %s...' % ([t for t, _ in o['allocs']][:4], o['pcm_times'][:4]))
     if o['fills']:
         if not o['pcm_times'] or o['fills'][0][0] < o['pcm_times'][0]:
             F.append('a fill at %s precedes the first rebalance %s' % (o['fills'][0][0], o['pcm_times'][:1]))
